@@ -127,10 +127,12 @@ class PipeChecker:
                                        for r in user['rounds']]
                         for user in scenario['users']}
         removals = {}
+        # (the model counts time from the start of the run; some runs start below zero)
+        base = getattr(self.arena, 'start', 0)
         for n, kind, name, when in self.arena.struck:
-            removals.setdefault(name, when)
+            removals.setdefault(name, when - base)
         for name, when in self.deadlines.items():
-            removals[name] = min(when, removals.get(name, when))
+            removals[name] = min(when - base, removals.get(name, when - base))
         expected, ambiguous = fluid.simulate(throughput, participants, removals)
         if self.max_inflight >= 2:
             self.stats['overlapping_runs'] += 1
@@ -138,6 +140,7 @@ class PipeChecker:
             self.stats['ambiguous_runs'] += 1
             return
         for name, ends in self.ends.items():
+            ends = [when - base for when in ends]
             want = expected[name]
             if len(ends) != len(want):
                 self.violation(
@@ -177,6 +180,8 @@ def build_for(case):
     scenario = case['scenario']
 
     def build(arena):
+        # (a clock that starts below zero and crosses it; whole and half units stay exact)
+        arena.start = [-10, -1.5, -4][case['index'] % 3] if case['index'] % 7 == 3 else 0
         if scenario['throughput'] == 'inf':
             pipe = UnboundedPipe()
         elif scenario['throughput'] == 'pipe-inf':
